@@ -87,3 +87,10 @@ CHECKS["C13"] = dict(
  text="Five container templates (int lists with an alias and an independent list; string lists; lists of optionals; nested lists sharing an inner list; maps with an alias and an independent map) x the full operation alphabet of the property (push, remove / read / index assignment / op-assignment at indices -1, 0, len-1, len, reverse, clear, clone, re-aliasing, join, map, filter, index_of, len, ==, to_str; map literal, read, assignment, op-assignment, replace, remove, contains_key, len, keys, values, pairs, clear, clone). BFS to depth 4 (quick: ~5 000 model states, ~35 000 transitions) / depth 7 (thorough) with state de-duplication; each transition is executed on the real CLI along the shortest history to its source state, every step printing its result and all containers; thorough also replays transitions along a second witness history reaching the same model state.",
  note="Python list/dict model with explicit aliasing. Values in {0,1,2}, list length capped at 3 by the alphabet. Map-derived output compared as sorted multisets. Out-of-range accesses must stop the program (any non-zero exit).",
  design_ref="DESIGN.md section 4, C13")
+
+CHECKS["C07"] = dict(
+ category="model_checking",
+ technique="explicit-state breadth-first search over call/assignment histories on closure templates (model = reference interpreter with explicit cells, states de-duplicated on observer values, every transition replayed on the real CLI) plus an exhaustive capture-site matrix",
+ text="Five closure templates (a module variable captured by several closures incl. modify, plain local assignment and passing a closure as argument; a counter factory with two instances, re-creation and closure aliasing; three nesting levels with a closure created by a closure; closures created in a method, stored in a list and passed as arguments; the shadowing family) explored breadth-first over histories of up to 9 (quick) / 14 (thorough) operations or to the fix-point, each transition executed on the real CLI. In addition a capture-site matrix: the captured variable is used only inside one of 33 AST node kinds (operands, call / method arguments, list / map literals, index, if / else-if / while conditions, from start / bound / step, or primary / fallback, ?= source, nested closures, modify in blocks and loops, local shadow ...) with the closure created 1-3 levels below the owner (module, function, method) and the owner assigning after creation.",
+ note="Functions are never printed; is_closure() is part of the alphabet. The model's capture rule (free variables of the body that are visible at creation) is validated by the check itself.",
+ design_ref="DESIGN.md section 4, C07")
